@@ -29,7 +29,33 @@ func cmpInt(a, b int) int {
 }
 
 func runC01(c *core.Ctx) {
-	switch c.R.Intn(6) {
+	switch c.R.Intn(7) {
+	case 6: // big trees in extreme shapes: sparsest (Fibonacci) AVL shapes built without rotations, sorted runs, random
+		r := c.R
+		var pre []int
+		switch r.Intn(3) {
+		case 0:
+			pre = fibLevelOrder(r.Range(3, 11)) // 4..232 values, maximal height for the size
+		case 1:
+			n := r.Range(40, 400)
+			for i := 0; i < n; i++ {
+				pre = append(pre, i)
+			}
+			if r.Bool() {
+				for i, j := 0, len(pre)-1; i < j; i, j = i+1, j-1 {
+					pre[i], pre[j] = pre[j], pre[i]
+				}
+			}
+		case 2:
+			for _, i := range r.Perm(r.Range(40, 400)) {
+				pre = append(pre, i)
+			}
+		}
+		u := make([]int, len(pre)+3)
+		for i := range u {
+			u[i] = i - 1
+		}
+		avlCasePre(c, "int-big", u, cmpInt, pre)
 	case 0: // dense ints: duplicates everywhere
 		u := make([]int, 8)
 		for i := range u {
@@ -100,6 +126,11 @@ type avlLive[T comparable] struct {
 }
 
 func avlCase[T comparable](c *core.Ctx, tname string, univ []T, cmp func(a, b T) int, ascending bool) {
+	avlCasePre(c, tname, univ, cmp, nil)
+}
+
+// avlCasePre: pre is inserted first (observed every 16th insertion and at the end).
+func avlCasePre[T comparable](c *core.Ctx, tname string, univ []T, cmp func(a, b T) int, pre []T) {
 	r := c.R
 	useOrdered := cmp == nil
 	if useOrdered {
@@ -238,6 +269,32 @@ func avlCase[T comparable](c *core.Ctx, tname string, univ []T, cmp func(a, b T)
 		}
 		return true
 	}
+	// Observation cadence: mostly after every call, but a third of the histories
+	// are observed only every 2..6 calls (and at the end) - a monitor that always
+	// looks after every single mutation never sees state that goes stale only
+	// across several mutations (e.g. a cache validated by length alone).
+	obsEvery := 1
+	if r.Chance(1, 3) {
+		obsEvery = r.Range(2, 6)
+	}
+	c.Count(fmt.Sprintf("observe_every_%d", obsEvery), 1)
+	for i, v := range pre {
+		hist = append(hist, fmt.Sprintf("t0.Add(%v)", v))
+		if p, pv := core.Catch(func() { live[0].t.Add(v) }); p {
+			fail("Add:panic", fmt.Sprintf("Add(%v) panicked: %v", v, pv))
+			return
+		}
+		live[0].model = insertSorted(live[0].model, v)
+		if i%16 == 15 || i == len(pre)-1 {
+			if !checkAll("Add") {
+				return
+			}
+		}
+	}
+	if len(pre) > 0 {
+		c.Count("prebuilt_trees", 1)
+		nontrivial = true
+	}
 	for step := 0; step < nops; step++ {
 		li := r.Intn(len(live))
 		l := live[li]
@@ -362,8 +419,10 @@ func avlCase[T comparable](c *core.Ctx, tname string, univ []T, cmp func(a, b T)
 		}
 		hh = core.Mix(hh, core.HashString(hist[len(hist)-1]))
 		c.Count("calls", 1)
-		if !checkAll(op) {
-			return
+		if step%obsEvery == obsEvery-1 || step == nops-1 {
+			if !checkAll(op) {
+				return
+			}
 		}
 	}
 	if nontrivial {
@@ -376,7 +435,6 @@ func avlCase[T comparable](c *core.Ctx, tname string, univ []T, cmp func(a, b T)
 		}
 		c.Sample(map[string]any{"type": tname, "ops": len(hist), "history_prefix": h})
 	}
-	_ = ascending
 }
 
 func sizeClass(n int) string {
